@@ -151,6 +151,28 @@ def is_noise(stmt):
             return True
         if isinstance(t, ast.Call) and isinstance(t.func, ast.Name) and t.func.id == 'isinstance' and t.args and isinstance(t.args[0], ast.Name):
             return True
+        # a test that only looks: names, attributes, constants, comparisons, and / or / not, isinstance / len, is_alive() / is_set()
+        def looks_only(e):
+            if isinstance(e, (ast.Name, ast.Constant)):
+                return True
+            if isinstance(e, ast.Attribute):
+                return looks_only(e.value)
+            if isinstance(e, ast.UnaryOp) and isinstance(e.op, ast.Not):
+                return looks_only(e.operand)
+            if isinstance(e, ast.BoolOp):
+                return all(looks_only(v) for v in e.values)
+            if isinstance(e, ast.Compare):
+                return looks_only(e.left) and all(looks_only(c) for c in e.comparators)
+            if isinstance(e, (ast.Tuple, ast.List)):
+                return all(looks_only(x) for x in e.elts)
+            if isinstance(e, ast.Call) and not e.keywords:
+                if isinstance(e.func, ast.Name) and e.func.id in ('isinstance', 'len', 'callable', 'type'):
+                    return all(looks_only(a) for a in e.args)
+                if isinstance(e.func, ast.Attribute) and e.func.attr in ('is_alive', 'is_set', 'locked', 'empty') and not e.args:
+                    return looks_only(e.func.value)
+            return False
+        if looks_only(t):
+            return True
     if isinstance(stmt, ast.Expr):
         v = stmt.value
         if isinstance(v, ast.Constant):
